@@ -19,6 +19,11 @@
      Yule-Walker  aryule_shift aryule_mirror aryule_time_reversal; class spectrum pyule_shift pyule_mirror pyule_reversal
      Burg         burg_modulation (reflection / AR coefficient j times tw(-m(j+1)), rho unchanged, same ValueError and
                   order-selection decisions) burg_conj burg_time_reversal; class spectrum pburg_shift pburg_mirror pburg_reversal
+     covariance   arcovar_modulation arcovar_conj modcovar_modulation modcovar_conj modcovar_time_reversal (corrmtx + the executable
+                  solver [ls_solve] = Gaussian elimination on the normal equations with its exact zero tests + the code's
+                  post-processing incl. the 'wierd behaviour' assertion; no side condition: a zero pivot is None on both sides);
+                  class spectra pcovar_shift pcovar_mirror pmodcovar_shift pmodcovar_mirror pmodcovar_reversal
+     MA           ma_modulation ma_conj ma_time_reversal (arma.ma = aryule twice); class spectrum pma_shift pma_mirror pma_reversal
      min. variance  minvar_shift minvar_mirror minvar_time_reversal (every order / NFFT incl. aliased grids)
      multitaper   multitaper_shift multitaper_mirror multitaper_reversal: MultiTapering.__call__ on complex data, methods
                   unity / eigen / adapt (the adaptive iteration runs in lock step: pointwise update, rotation-invariant stop test)
@@ -32,18 +37,20 @@
    by are nonzero (N, N-k, mean power for 'coeff', the error powers / Burg denominators of the executed stages) -- conj(a/0)
    is not determined in an abstract field and the code produces inf/nan there.
 
-   NOT PROVED (search on the implementation only): covariance / modified covariance / arma_estimate / ma parameter estimators
-   (pcovar, pmodcovar, parma, pma: their class spectra follow from arma2psd_rotation / _mirror once the estimator law is
-   known; modified-covariance time reversal), pmusic / pev, real-data correlogram (two-sided to one-sided conversion),
-   pdaniell; arma2psd with norm=True. *)
+   NOT PROVED (search on the implementation only): arma_estimate (parma: its class spectrum follows from arma2psd_rotation /
+   _mirror once the estimator law is known; there is no model of arma_estimate), pmusic / pev, real-data correlogram
+   (two-sided to one-sided conversion), pdaniell; arma2psd with norm=True.  scipy.linalg.lstsq is represented by the
+   executable solver ls_solve (any solver of the normal equations agrees with it on full-rank data: C09). *)
 From Coq Require Import String.
 Require Import Spectrum.Theory.Ops Spectrum.Theory.Sum Spectrum.Theory.Vec Spectrum.Theory.Dft
                Spectrum.Model.Levinson Spectrum.Model.Corr Spectrum.Model.Periodogram Spectrum.Model.Arma2psd
                Spectrum.Model.Yule Spectrum.Model.Burg Spectrum.Model.Minvar Spectrum.Model.Mtm Spectrum.Model.PipelineLib
+               Spectrum.Model.Ls Spectrum.Model.MaEst
                Spectrum.Proofs.ShiftTheory Spectrum.Proofs.YuleExt Spectrum.Proofs.MtmTheory
                Spectrum.Proofs.ShiftDft_C04 Spectrum.Proofs.ShiftPeriodogram_C04 Spectrum.Proofs.ShiftCorrelogram_C04
                Spectrum.Proofs.ShiftArma_C04 Spectrum.Proofs.ShiftBurg_C04 Spectrum.Proofs.ShiftMinvar_C04
                Spectrum.Proofs.ShiftMtm_C04 Spectrum.Proofs.HomTransfer_C04 Spectrum.Proofs.ShiftPipeline_C04
+               Spectrum.Proofs.ShiftMa_C04 Spectrum.Proofs.ShiftLs_C04
                Spectrum.Instances.QcC Spectrum.Instances.QcCTw.
 From Coq Require Import QArith Qcanon.
 
@@ -209,6 +216,66 @@ Proof. exact (pburg_S_mirror n tw n_pos x order stop). Qed.
 Theorem pburg_reversal (x : list F) order stop : pburg_S tw (vrevconj x) order stop n = pburg_S tw x order stop n.
 Proof. exact (pburg_S_reversal n tw x order stop). Qed.
 
+(* ---------------- covariance / modified covariance (executable least-squares solver) ---------------- *)
+Theorem arcovar_modulation (m : Z) tol (x : list F) p :
+  arcovar tol (vmod (shift_phase m) 0 x) p = map_ae (modA (shift_phase m)) (arcovar tol x p).
+Proof. exact (arcovar_modulation_thm (shift_phase m) (shift_phase_add m) (shift_phase_0 m) (shift_phase_cj m) tol x p). Qed.
+
+Theorem arcovar_conj tol (x : list F) p : arcovar tol (vconj x) p = map_ae vconj (arcovar tol x p).
+Proof. exact (arcovar_conj_thm tol x p). Qed.
+
+Theorem modcovar_modulation (m : Z) tol (x : list F) p :
+  modcovar tol (vmod (shift_phase m) 0 x) p = map_ae (modA (shift_phase m)) (modcovar tol x p).
+Proof. exact (modcovar_modulation_thm (shift_phase m) (shift_phase_add m) (shift_phase_0 m) (shift_phase_cj m) tol x p). Qed.
+
+Theorem modcovar_conj tol (x : list F) p : modcovar tol (vconj x) p = map_ae vconj (modcovar tol x p).
+Proof. exact (modcovar_conj_thm tol x p). Qed.
+
+Theorem modcovar_time_reversal tol (x : list F) p : modcovar tol (vrevconj x) p = modcovar tol x p.
+Proof. exact (modcovar_time_reversal_thm tol x p). Qed.
+
+Theorem pcovar_shift tol (x : list F) p (m : Z) :
+  pcovar_S tw tol (vmod (shift_phase m) 0 x) p n = option_map (rot m) (pcovar_S tw tol x p n).
+Proof. exact (pcovar_S_shift n tw n_pos tol x p m). Qed.
+
+Theorem pcovar_mirror tol (x : list F) p : pcovar_S tw tol (vconj x) p n = option_map mirror (pcovar_S tw tol x p n).
+Proof. exact (pcovar_S_mirror n tw n_pos tol x p). Qed.
+
+Theorem pmodcovar_shift tol (x : list F) p (m : Z) :
+  pmodcovar_S tw tol (vmod (shift_phase m) 0 x) p n = option_map (rot m) (pmodcovar_S tw tol x p n).
+Proof. exact (pmodcovar_S_shift n tw n_pos tol x p m). Qed.
+
+Theorem pmodcovar_mirror tol (x : list F) p : pmodcovar_S tw tol (vconj x) p n = option_map mirror (pmodcovar_S tw tol x p n).
+Proof. exact (pmodcovar_S_mirror n tw n_pos tol x p). Qed.
+
+Theorem pmodcovar_reversal tol (x : list F) p : pmodcovar_S tw tol (vrevconj x) p n = pmodcovar_S tw tol x p n.
+Proof. exact (pmodcovar_S_reversal n tw tol x p). Qed.
+
+(* ---------------- arma.ma (aryule twice) and pma ---------------- *)
+Theorem ma_modulation (m : Z) (x : list F) Q M :
+  ma_est (vmod (shift_phase m) 0 x) Q M = map_ma (modA (shift_phase m)) (ma_est x Q M).
+Proof. exact (ma_modulation_thm (shift_phase m) (shift_phase_add m) (shift_phase_0 m) (shift_phase_cj m) x Q M). Qed.
+
+Theorem ma_conj (x : list F) Q M : (forall k, (1 <= k)%nat -> ofnat k <> 0) -> yw_regular x M ->
+  (forall a rho k, aryule x M Biased true = inr (a, rho, k) -> yw_regular (1 :: a) Q) ->
+  ma_est (vconj x) Q M = map_ma vconj (ma_est x Q M).
+Proof. exact (ma_conj_thm x Q M). Qed.
+
+Theorem ma_time_reversal (x : list F) Q M : ma_est (vrevconj x) Q M = ma_est x Q M.
+Proof. exact (ma_time_reversal_thm x Q M). Qed.
+
+Theorem pma_shift (x : list F) Q M (m : Z) :
+  pma_S tw (vmod (shift_phase m) 0 x) Q M n = option_map (rot m) (pma_S tw x Q M n).
+Proof. exact (pma_S_shift n tw n_pos x Q M m). Qed.
+
+Theorem pma_mirror (x : list F) Q M : (forall k, (1 <= k)%nat -> ofnat k <> 0) -> yw_regular x M ->
+  (forall a rho k, aryule x M Biased true = inr (a, rho, k) -> yw_regular (1 :: a) Q) ->
+  pma_S tw (vconj x) Q M n = option_map mirror (pma_S tw x Q M n).
+Proof. exact (pma_S_mirror n tw n_pos x Q M). Qed.
+
+Theorem pma_reversal (x : list F) Q M : pma_S tw (vrevconj x) Q M n = pma_S tw x Q M n.
+Proof. exact (pma_S_reversal n tw x Q M). Qed.
+
 (* ---------------- minimum variance ---------------- *)
 Theorem minvar_shift (x : list F) order fs (m : Z) :
   minvar tw (vmod (shift_phase m) 0 x) order fs n = option_map (mod3 tw m) (minvar tw x order fs n).
@@ -349,6 +416,22 @@ Print Assumptions burg_time_reversal.
 Print Assumptions pburg_shift.
 Print Assumptions pburg_mirror.
 Print Assumptions pburg_reversal.
+Print Assumptions arcovar_modulation.
+Print Assumptions arcovar_conj.
+Print Assumptions modcovar_modulation.
+Print Assumptions modcovar_conj.
+Print Assumptions modcovar_time_reversal.
+Print Assumptions pcovar_shift.
+Print Assumptions pcovar_mirror.
+Print Assumptions pmodcovar_shift.
+Print Assumptions pmodcovar_mirror.
+Print Assumptions pmodcovar_reversal.
+Print Assumptions ma_modulation.
+Print Assumptions ma_conj.
+Print Assumptions ma_time_reversal.
+Print Assumptions pma_shift.
+Print Assumptions pma_mirror.
+Print Assumptions pma_reversal.
 Print Assumptions minvar_shift.
 Print Assumptions minvar_mirror.
 Print Assumptions minvar_time_reversal.
